@@ -32,9 +32,10 @@ where
     let mut next = Vec::new();
     loop {
         if todo[usize::from(c)].is_empty() {
-            c = c.checked_add(1).unwrap();
-            if usize::from(c) == todo.len() {
-                return Vec::new();
+            // Costs are `u16`s, so there is nothing to be found beyond `u16::MAX`.
+            match c.checked_add(1) {
+                Some(next_c) if usize::from(next_c) < todo.len() => c = next_c,
+                _ => return Vec::new(),
             }
             continue;
         }
